@@ -10,7 +10,7 @@ import c01
 from vlib import (Check, MachineryError, coq_eval_cases, coqc, ensure_theory, gen_dir, probe_json,
                   props_assumptions)
 
-HEADER = c01.HEADER.replace('Tab.FullTab Tab.FullSound.', 'Tab.FullTab Tab.FullSound Tab.Saturate.')
+HEADER = c01.HEADER.replace('Tab.FullTab Tab.FullSound.', 'Tab.FullTab Tab.FullSound Tab.Saturate Tab.PropTerm Tab.FullComplete.')
 CLAUSE = {1: 'unticked-compound', 2: 'no-extension-on-branch', 3: 'missing-instance', 4: 'frame-rule-unapplied',
           5: 'no-rule-for-shape', 6: 'serial-successor-missing'}
 FDE_FAMILY = {'FDE', 'KFDE', 'TFDE', 'S4FDE', 'S5FDE'}
@@ -29,6 +29,61 @@ def clause_key(logic, c, shape):
     if c == 6:
         return 'unsaturated:serial-successor-missing:rules.access.Serial(_should_apply)'
     return f'unsaturated:{logic}:{CLAUSE.get(c, str(c))}:{shape}'
+
+
+def emit_complete(chk, g, facts, rules):
+    "Per logic: FLC_<L> (all expressible rules), general weights (untrusted hint) and the lemma complete_okF."
+    import rulegen, weights, c04, c05
+    from vlib import coq_string, write_if_changed
+    logics = facts['logics']
+    data = c04.gather(facts, rules)
+    exprs, hints = [], {}
+    for L in logics:
+        n = L['name']
+        i = coqgen.ident(n)
+        ops = [it['rule'] for it in data[n] if it['kind'] == 'op' and it['term'] and not it['error'] and not it['problems']]
+        gst = []
+        for it in data[n]:
+            if it['kind'] in ('quant', 'modal') and it['term'] and not it['error'] and not it['problems']:
+                gst.append(rulegen.qrule_struct(it['rule']))
+        ws = weights.search_general(ops, gst)
+        hints[n] = ws
+        if ws is None:
+            continue
+        t = f'(s_t (fl_S FLA_{i}))'
+        exprs.append((n, f'(forallb rule_two_opd (fl_rules FLA_{i}) && '
+                         f'forallb (fun r => is_none (tf_complete {t} r)) (fl_rules FLA_{i}) && '
+                         f'forallb (fun gr => is_none (q_complete {t} (s_ge (fl_S FLA_{i})) (s_gu (fl_S FLA_{i})) (g_isq gr) (gq gr)) '
+                         f'&& wit_ok gr && (if g_isq gr then s_quant (fl_S FLA_{i}) else s_modal (fl_S FLA_{i}))) (fl_grules FLA_{i}) && '
+                         f'is_none (closure_complete {t} (fl_hd FLA_{i}) (fl_ks FLA_{i})) && closed_ok {t} && gen_closed (fl_S FLA_{i}) && '
+                         f'vmem V{L["unassigned"]} (t_vals {t}) && gws_ok ({weights.coq_gwspec(ws)}) && '
+                         f'forallb (tf_node_decreases ({weights.coq_gwspec(ws)})) (fl_rules FLA_{i}) && '
+                         f'forallb (grule_decreases ({weights.coq_gwspec(ws)})) (fl_grules FLA_{i}))'))
+    hdr = HEADER + 'Require Import GC02.Rules GC02.Logics.\n'
+    answers = coq_eval_cases('C02', hdr, [e for _, e in exprs], shard=12, name='CStatus')
+    defs = [hdr, 'From PTProps Require C02.\n']
+    has = {}
+    for (n, _), ans in zip(exprs, answers):
+        i = coqgen.ident(n)
+        L = next(x for x in logics if x['name'] == n)
+        ok = ans.strip() == 'true'
+        has[n] = ok
+        chk.obligation(f'{n}:complete_okF(all rules: if-direction, closure completeness, decreasing weights)', ok)
+        if ok:
+            defs.append(f'Definition WSG_{i} : gwspec := {weights.coq_gwspec(hints[n])}.\n'
+                        f'Lemma cok_{i} : complete_okF FLA_{i} V{L["unassigned"]} WSG_{i}.\n'
+                        'Proof. constructor; vm_compute; auto 10. Qed.\n'
+                        f'Definition C02_{i} := fun b tk => C02.C02_saturated_branch FLA_{i} V{L["unassigned"]} WSG_{i} b tk cok_{i}.\n')
+        else:
+            chk.violation(f'complete:{n}:obligations',
+                          f'{n}: the completeness obligations (if-direction of a rule, closure completeness or weight decrease) are refuted',
+                          dict(kind='obligation', logic=n, obligation=f'complete_okF FLA_{i}'), found_input=False)
+    write_if_changed(g / 'Complete.v', '\n'.join(defs) + '\n')
+    rc, out = coqc(g / 'Complete.v', timeout=900)
+    if rc:
+        raise MachineryError('generated Complete.v does not compile:\n' + out[-3000:])
+    chk.notes['logics_without_decreasing_weights'] = sorted(n for n, w in hints.items() if w is None)
+    return has
 
 
 def gen_jobs(logics, examples, tier, seed):
@@ -65,6 +120,7 @@ def run(args) -> int:
     import c03
     g3 = gen_dir('C02p')
     info3 = c03.emit_logics(chk, g3, facts, rules, pid='C02p')
+    has_thm = emit_complete(chk, g, facts, rules)
     examples = probe_json('probe_examples.py')['titles']
     jobs = gen_jobs(logics, examples, args.tier, args.seed)
     orders = [0] if args.tier == 'quick' else [0, 1, 2]
@@ -96,19 +152,21 @@ def run(args) -> int:
                 S = f'(fl_S FL_{i})'
                 M = f'(model_of {ob["model"]})'
                 exprs.append(f'(failing_from {S} {M} 0 {ob["nodes"]}, is_countermodel {S} {M} {r["prems"]} {r["concl"]}, '
-                             f'unsaturated FLA_{i} {ob["nodes"]} {ob["ticked"]})')
+                             f'unsaturated FLA_{i} {ob["nodes"]} {ob["ticked"]}, branch_okb FLA_{i} {ob["nodes"]} {ob["ticked"]})')
                 idx.append((job, r, ob))
         answers = coq_eval_cases('C02', HEADER + 'Require Import GC02.Rules GC02.Logics.\n', exprs, shard=200,
                                  name=f'Branches{order}_')
         for (job, r, ob), ans in zip(idx, answers):
             n = job['logic']
             n_branches += 1
-            m = re.match(r'\(\[(.*?)\], (true|false), \[(.*)\]\)$', ans)
+            m = re.match(r'\(\[(.*?)\], (true|false), \[(.*)\], (true|false)\)$', ans)
             if not m:
                 raise MachineryError(f'cannot parse branch status: {ans[:200]}')
             failing = [int(x) for x in m.group(1).split(';') if x.strip()]
             cm = m.group(2) == 'true'
             unsat = [(int(a), int(b_)) for a, b_ in re.findall(r'\((\d+), (\d+)\)', m.group(3))]
+            if m.group(4) == 'true' and has_thm.get(n):
+                chk.count('branches', 'under theorem C02_saturated_branch')
             label = job.get('example') or [job.get('premises'), job.get('conclusion')]
             nontriv = ob['n_nodes'] >= 4
             chk.case([n, label, ob['index'], order], nontrivial=nontriv,
@@ -145,7 +203,7 @@ def run(args) -> int:
     for n, v in info3.items():
         pass
     chk.assumptions = props_assumptions('C02')
-    chk.theorems = ['C02_countermodel_partial', 'C02_read_off_satisfies_literals']
+    chk.theorems = ['C02_saturated_branch', 'C02_saturated_branch_countermodel', 'C02_branch_model_frame', 'C02_countermodel_partial']
     chk.rule = ('invalid proofs of example and random arguments x logics (x hash-order seeds in thorough) with models built; '
                 'every limit-free open branch: the library\'s model is exported as data and every branch node and the argument are '
                 'evaluated by the Coq evaluator (Sem/Model.v eval) on it, saturation is decided by Tab/Saturate.v unsaturated; '
@@ -153,11 +211,13 @@ def run(args) -> int:
     chk.checker_cmd = 'coqc gen/C02/{Rules,Logics,Branches*}.v, gen/C02p/* against coq/theories/{Sem,Tab}/*.v, Props/C02.v'
     chk.trusted += ['Sem/Model.v eval as the recursive semantics; probe_gproofs.py model export (frames, access, extensions read from the library\'s model object)']
     chk.notes['explanation'] = (
-        'Theorem C02_countermodel_partial (propositional fragment, every logic with decide_ok): from any open leaf of an accepted '
-        'certificate the valuation read off as the model builder does satisfies every node of the branch and is a countermodel. '
-        'Beyond that fragment the property is decided per reported countermodel: each exported model is evaluated inside Coq '
-        'against every node of its branch and the argument (open_branches_certified), and saturation is decided by an executable predicate; '
-        'no unbounded theorem covers modal / first-order open branches yet.')
+        'Theorem C02_saturated_branch (Hintikka lemma for the general calculus, modal and quantifier rules included): for every logic with '
+        'complete_okF discharged, the model read off any open saturated branch (branch_okb, decided inside Coq per exported branch) satisfies '
+        'every node; with C02_saturated_branch_countermodel and C02_branch_model_frame it is a countermodel with the right frame property. '
+        'C02_countermodel_partial states the propositional case on certificates for all 57 logics. Per run: every exported open branch is '
+        'checked against branch_okb (then the theorem applies to that very branch), the LIBRARY\'s model of it is evaluated inside Coq '
+        'against every node and the argument, and saturation failures are reported with their call-site key. Logics whose rewriting rules '
+        'admit no decreasing linear weight (logics_without_decreasing_weights) are covered by the per-branch evaluation only.')
     return chk.finish()
 
 
